@@ -322,4 +322,53 @@ theorem transformValue_check_gen (T : Tables) (b : Bind) (st : TState) (ty lit :
   simp only [ite_self, hm]
 
 
+/-- the name transform does nothing to a tag outside its table (no option on the tag) -/
+theorem transformName_skip (T : Tables) (tag : Str) (bnd : Option Bind) (st : TState)
+    (hen : Enabled T st.ctx "auto_name".toList) (hopt : Dict.get? st.attrs "auto_name".toList = none)
+    (htag : T.autoTag sName tag = false) :
+    transformName T tag bnd st = .ok st := by
+  have hp := hen st.attrs hopt
+  rw [erase_absent _ _ hopt] at hp
+  unfold transformName
+  simp only [bind, Except.bind, pure, Except.pure]
+  rw [hp]
+  cases bnd with
+  | none => rfl
+  | some b =>
+    simp only [Bool.not_true, Bool.false_eq_true, if_false, htag, Bool.and_false, Bool.or_self]
+    split <;> rfl
+
+/-- an `<option>` with a `value` attribute: `selected` is set exactly when the value matches -/
+theorem transformValue_option (T : Tables) (b : Bind) (st : TState) (lit : Val) (m : Bool)
+    (hen : Enabled T st.ctx "auto_value".toList) (hopt : Dict.get? st.attrs "auto_value".toList = none)
+    (hlit : Dict.get? st.attrs sValue = some lit) (hm : b.matches T (some lit) = .ok m)
+    (htag : T.autoTag sValue sOption = true) :
+    transformValue T sOption (some b) st = .ok { st with attrs := toggleAttr st.attrs sSelected m } := by
+  have hp := hen st.attrs hopt
+  rw [erase_absent _ _ hopt] at hp
+  unfold transformValue
+  simp only [bind, Except.bind, pure, Except.pure]
+  rw [hp]
+  have e1 : sOption ≠ sInput := by decide
+  simp only [Bool.not_true, Bool.false_eq_true, ↓reduceIte, htag, Bool.not_false, Bool.and_false, e1, hlit, hm]
+
+/-- a checkbox WITHOUT `value=` bound to a Boolean: `value` becomes `bind.true`, `checked` is set
+    exactly when the element's text is that value -/
+theorem transformValue_boolcheck (T : Tables) (b : Bind) (st : TState) (ty : Val) (tru : Str)
+    (hen : Enabled T st.ctx "auto_value".toList) (hopt : Dict.get? st.attrs "auto_value".toList = none)
+    (hty : Dict.get? st.attrs sType = some ty) (hck : ty.eqStr "checkbox".toList = true)
+    (hno : Dict.get? st.attrs sValue = none) (hkind : b.kind = .boolean tru)
+    (htag : T.autoTag sValue sInput = true) :
+    transformValue T sInput (some b) st =
+      .ok { st with attrs := toggleAttr (Dict.set st.attrs sValue (.text tru)) sChecked (tru == b.u) } := by
+  have hp := hen st.attrs hopt
+  rw [erase_absent _ _ hopt] at hp
+  have hm : b.matches T (some (.text tru)) = .ok (tru == b.u) := by
+    unfold Bind.matches; rw [hkind]; rfl
+  unfold transformValue
+  simp only [bind, Except.bind, pure, Except.pure]
+  rw [hp]
+  simp only [Bool.not_true, Bool.false_eq_true, ↓reduceIte, htag, Bool.not_false, Bool.and_false,
+    hty, Option.getD_some, hck, Bool.or_true, hno, hkind, hm]
+
 end Flatland.C12.Proofs
